@@ -92,7 +92,8 @@ func RunConfigs(c *run.Ctx, prop string, cfgs []chw.WriterCfg, calm, faulty int,
 		}
 	}
 	for _, f := range []string{"requests acknowledged 2xx", "requests answered with an error", "failed block followed by a successful retry (request 2xx)", "retries exhausted (request >= 400)",
-		"request sent while an INSERT of its table was in flight", "two INSERTs in flight at once", "multi-chunk bodies"} {
+		"request sent while an INSERT of its table was in flight", "two INSERTs in flight at once", "multi-chunk bodies",
+		"multi-portion body whose first portion's INSERTs failed for good while later ones succeeded"} {
 		c.Floor(f, 1, 0)
 	}
 }
@@ -193,6 +194,9 @@ func check(c *run.Ctx, wl chw.WorkCfg, h *chw.History, evOnly bool) {
 		}
 		if it.Req.MultiChunk {
 			c.Floor("multi-chunk bodies", 1, 1)
+		}
+		if it.Phase == "poisoned-first-portion" {
+			c.Floor("multi-portion body whose first portion's INSERTs failed for good while later ones succeeded", 1, 1)
 		}
 		owned := a.OwnedIdentities(i)
 		// interleaving classes (evidence)
